@@ -208,16 +208,18 @@ class C12(Prop):
         detail = {'text': text}
         problems = analyse(code)
         if not problems:
-            # source text reaches the output only as constants - and unchanged: every atom of the source is one of the
-            # string constants of the generated code
+            # source text reaches the output only as constants - and unchanged: every string constant of the generated
+            # code is the name of an atom (or another token) of the source.  (The converse does not hold: the compiler
+            # drops code that cannot be reached, e.g. after `!, fail`, and compiles directives to nothing.)
             try:
-                want = {recog.unquote(t[1]) for t in recog.lex(text) if t[0] == 'STRING' and not re.search(r"\\(?!')", t[1][1:-1])}
-                tree = ast.parse(code)
-                have = {n.value for n in ast.walk(tree) if isinstance(n, ast.Constant) and isinstance(n.value, str)}
-                have |= {n.name.rsplit('_', 1)[0] for n in tree.body if isinstance(n, ast.FunctionDef)}      # clause-head names
-                missing = sorted(want - have)
-                if missing:
-                    problems = ['quoted atom %r of the source is not among the string constants of the output (text altered on the way)' % missing[0]]
+                toks = recog.lex(text)
+                if not any(t[0] == 'STRING' and re.search(r"\\(?!')", t[1][1:-1]) for t in toks):
+                    allowed = {recog.unquote(t[1]) if t[0] == 'STRING' else t[1] for t in toks}
+                    tree = ast.parse(code)
+                    have = {n.value for n in ast.walk(tree) if isinstance(n, ast.Constant) and isinstance(n.value, str)}
+                    extra = sorted(have - allowed)
+                    if extra:
+                        problems = ['string constant %r of the output is not the name of any atom of the source (text altered on the way)' % extra[0]]
             except (recog.LexError, RecursionError):
                 pass
         if problems:
